@@ -254,8 +254,10 @@ def marathon(rec, rng, prop, n_texts=4200, altered_key="history/earlier-result-a
                     p.parse(bad)
                 except Exception:
                     pass
-        if i % 700 == 350:
-            # the parser goes on as a copy of itself (a worker process unpickles it, a search deep-copies its state)
+        if i == 3000:
+            # late in its life (long after any bounded cache has started evicting: the trees kept above belong to
+            # THIS object's history) the parser goes on as a copy of itself (a worker process unpickles it, a search
+            # deep-copies its state)
             from . import copies as _CP
 
             p = _CP.routed(p, "parser", every=1, shallow=True)
